@@ -342,43 +342,59 @@ def _derives_from_len(f, P, v, depth):
     return False
 
 
+NUL_SCANNERS = {"strlen", "strdup", "strcmp", "strcasecmp", "strcpy", "strcat", "strchr", "strrchr", "strstr", "json_object_new_string",
+                "json_object_set_string", "printbuf_strappend", "strtod", "strtoll", "strtoull", "json_parse_int64", "json_parse_uint64",
+                "atoi", "atol", "puts", "fputs"}
+DATA_SOURCES = ("get_string_component", "get_string_component_mutable", "json_object_get_string")
+
+
 def r6(chk, prog, m):
     rid = "C11.R6"
-    chk.rule(rid, "string bytes reach memcmp / memcpy / the escaping writer / the constructor together with the stored length "
-                  "(never strlen of the data) in equality, copy and serialization")
-    targets = {"json_object_equal": ("memcmp", 2), "json_c_shallow_copy_default": ("json_object_new_string_len", 1),
-               "json_object_string_to_json_string": ("json_escape_str", 2)}
+    chk.rule(rid, "in equality, copy and serialization a string's bytes travel with the stored length: every call that receives the data "
+                  "pointer of a string node also receives a length derived from the node's length field, and the data pointer never "
+                  "reaches a function that scans to the first NUL (strlen, strdup, strcmp, json_object_new_string, ...)")
+    targets = ("json_object_equal", "json_c_shallow_copy_default", "json_object_string_to_json_string")
     n = 0
-    for fname, (callee, lenarg) in targets.items():
+    for fname in targets:
         f = prog.fn(fname)
         chk.require(f is not None, fname + " not found")
         chk.touched(f)
         P = Paths(f, prog)
-        calls = [i for i in f.instrs() if i.op == "call" and i.callee == callee]
-        sig = "%s in %s" % (callee, fname)
-        n += 1
-        if not calls:
-            chk.refuted(rid, fname, sig, f.entry.term.locstr(), "%s no longer passes the string through %s with an explicit length" % (fname, callee))
+        cfg = cfg_of(f)
+        data = set()
+        for i in f.instrs():
+            if i.op == "call" and i.callee in DATA_SOURCES and i.res is not None:
+                data.add(i.res)
+        work = list(data)
+        while work:
+            r = work.pop()
+            for u in cfg.users(r):
+                if u.op in ("bitcast", "phi", "select", "getelementptr") and u.res is not None and u.res not in data:
+                    data.add(u.res)
+                    work.append(u.res)
+        consumers = [c for c in f.instrs() if c.op == "call" and c.callee and c.callee not in DATA_SOURCES
+                     and any(o.kind == "reg" and o.v in data for o in c.ops)]
+        if not consumers:
+            n += 1
+            chk.undecided(rid, fname, "string data in %s" % fname, f.entry.term.locstr(), "no call receives the string's data pointer here")
             continue
-        bad = None
-        for c in calls:
-            lp = P.path(c.ops[lenarg])
-            if "strlen" in lp or not _derives_from_len(f, P, c.ops[lenarg], 0):
-                bad = (c, lp)
-        if bad:
-            chk.refuted(rid, fname, sig, bad[0].locstr(), "length argument is %s, not the stored length: bytes after an embedded NUL are ignored" % bad[1])
-        else:
-            chk.proven(rid, fname, sig, calls[0].locstr(), "length argument derives from the stored length")
-    strlens = []
-    for fname in targets:
-        f = prog.fn(fname)
-        strlens += [i for i in f.instrs() if i.op == "call" and i.callee == "strlen"]
-    n += 1
-    if strlens:
-        chk.refuted(rid, strlens[0].fn.name, "strlen on string data", strlens[0].locstr(), "strlen() is applied in a function that must treat strings as counted byte sequences")
-    else:
-        chk.proven(rid, "equality/copy/serialization", "strlen on string data", "json_object.c", "no strlen in these functions")
-    chk.floor(rid, n, 4, "length-aware consumers")
+        for c in consumers:
+            n += 1
+            sig = "%s in %s" % (c.callee, fname)
+            others = [o for o in c.ops if not (o.kind == "reg" and o.v in data)]
+            if c.callee in NUL_SCANNERS:
+                chk.refuted(rid, fname, sig, c.locstr(),
+                            "the string's data pointer is handed to %s, which stops at the first NUL: bytes after an embedded NUL are ignored"
+                            % c.callee)
+            elif any(_derives_from_len(f, P, o, 0) for o in others):
+                chk.proven(rid, fname, sig, c.locstr(), "a length derived from the stored length travels with the data")
+            else:
+                lens = [P.path(o) for o in others if o.kind == "reg"]
+                if any("strlen" in l for l in lens):
+                    chk.refuted(rid, fname, sig, c.locstr(), "the length passed with the data is strlen of it, not the stored length")
+                else:
+                    chk.undecided(rid, fname, sig, c.locstr(), "no argument of this call is recognisably the stored length")
+    chk.floor(rid, n, 3, "consumers of string data in equality / copy / serialization")
 
 
 # ---------------------------------------------------------------------------
